@@ -1,6 +1,7 @@
 // C03: lr_guarded readers see only complete, current states (DESIGN.md section 7, C03)
 #include "gmlc/libguarded/lr_guarded.hpp"
 #include "vp.h"
+#include <chrono>
 #ifndef NWRITES
 #define NWRITES 2
 #endif
@@ -49,7 +50,9 @@ void vp_reader()
 #pragma unroll
     for (int k = 0; k < NREADS; k++) {
         int ret0 = vp_g(G_RETURNED);      // modifies that had returned before lock_shared began
-#if defined(READ_TRY)
+#if defined(READ_TRYFOR)
+        auto h = (k & 1) ? g_lr->try_lock_shared_until(std::chrono::steady_clock::now()) : g_lr->try_lock_shared_for(std::chrono::milliseconds(1));
+#elif defined(READ_TRY)
         auto h = g_lr->try_lock_shared();
 #else
         auto h = g_lr->lock_shared();
